@@ -29,6 +29,8 @@ type Ctrl struct {
 	Filter     world.FilterSpec       `json:"filter"`
 	FlipTo     *world.FilterSpec      `json:"flip_to,omitempty"` // the controller-level filter is stateful and accepts this instead once the server is quiet: the next relist reconciles
 	Unstructured bool                 `json:"unstructured,omitempty"` // the server speaks the dynamic client's representation
+	StrayContinue bool                `json:"stray_continue,omitempty"`
+	Twin         bool                 `json:"twin,omitempty"`         // the builder is used again for a second controller over another server
 	HeadFrame    string               `json:"head_frame,omitempty"`   // every watch stream opens with this non-object frame
 	Bystander  bool                   `json:"bystander,omitempty"` // a second, unrelated controller in the same process whose every Watch call hangs: controllers share nothing
 	BaseRV     int                    `json:"base_rv,omitempty"` // the server's version counter starts here (0 = 10)
@@ -158,6 +160,8 @@ func genC03(g GenCtx) interface{} {
 	sc.BaseRV = world.BaseRVs[rng.Intn(len(world.BaseRVs))]
 	sc.Bufsiz = pickInt(rng, 2, 3, 5, 10, 100)
 	sc.Unstructured = rng.Intn(8) == 0
+	sc.Twin = rng.Intn(6) == 0
+	sc.StrayContinue = rng.Intn(6) == 0
 	if rng.Intn(6) == 0 {
 		sc.HeadFrame = []string{"bookmark", "status", "unknown-type"}[rng.Intn(3)]
 	}
@@ -224,6 +228,8 @@ func genC04(g GenCtx) interface{} {
 	sc.Bufsiz = pickInt(rng, 2, 3, 4, 8, 16, 100)
 	sc.Bystander = rng.Intn(4) == 0
 	sc.Unstructured = rng.Intn(8) == 0
+	sc.Twin = rng.Intn(6) == 0
+	sc.StrayContinue = rng.Intn(6) == 0
 	if rng.Intn(6) == 0 {
 		sc.HeadFrame = []string{"bookmark", "status", "unknown-type"}[rng.Intn(3)]
 	}
@@ -284,6 +290,7 @@ func runCtrl(sci interface{}) {
 	srv.SetBaseRV(sc.BaseRV)
 	srv.Unstructured = sc.Unstructured
 	srv.HeadFrame = sc.HeadFrame
+	srv.StrayContinue = sc.StrayContinue
 	srv.F = world.NewFaults(sc.Faults)
 	srv.ListLatency = [2]time.Duration{ms(sc.ListLatMs[0]), ms(sc.ListLatMs[1])}
 	srv.VaryLatency = sc.VaryLat
@@ -293,6 +300,17 @@ func runCtrl(sci interface{}) {
 	}
 	h := world.NewH(srv, sc.Filter, sc.period(), sc.LogYield)
 	h.RootSwitch = sc.FlipTo != nil
+	if sc.Twin {
+		// one builder, two controllers, two API servers: whatever the first one does
+		// later (reconnects, relists) goes to ITS server
+		h.TwinSrv = world.NewServer("pod")
+		h.TwinSrv.Apply(world.Spec{NS: "other", Name: "x"})
+		defer func() {
+			if h.Twin != nil {
+				h.Twin.Close()
+			}
+		}()
+	}
 	h.NoRelist = sc.PeriodMs <= 0
 	// no hand-off can overflow while the whole server log (initial objects
 	// included: a reconnect from a stale version re-sends all of it) fits a buffer
